@@ -2,6 +2,7 @@
 from __future__ import annotations
 
 import os
+import time
 
 import z3
 
@@ -58,7 +59,9 @@ def features_of(schema: Schema):
 
 
 def _env(inst: Inst):
-    return {"v": {p: x.e for p, x in inst.vars.items()}, "types": {}}
+    return {"v": {p: x.e for p, x in inst.vars.items()},
+            "signed": {p: w for p, (k, w) in inst.kinds.items() if k == "i"},
+            "unsigned": {p: w for p, (k, w) in inst.kinds.items() if k == "u"}}
 
 
 def _replay_payload(kind, schema, inst, model, **kw):
@@ -172,3 +175,323 @@ def _vacuity_gate(rep: Report):
     v = rep.vacuity
     if v.get("twin_expected", 0) and v.get("twin_reached", 0) != v.get("twin_expected", 0):
         rep.inconclusive.append(f"reachability twin failed: {v}")
+
+
+# ---------------------------------------------------------------- C02
+def _as_symbytes(bvs):
+    return [SymInt._mk(z3.ZeroExt(W - 8, b), 0, 255) for b in bvs]
+
+
+def c02_case(args):
+    schema, tier = args
+    serde = _setup()
+    res = new_result()
+    fcp = parse(schema.text())
+    feats = features_of(schema)
+    known = Known("C02")
+    top = schema.top
+    T = ("struct", top)
+    cov = Coverage()
+    for ii, inst in enumerate(instances(schema, tier)):
+        canon = refspec.canon_bytes(schema, T, inst.value)
+        # (a) encoder output == canonical bytes
+        eng = Engine(timeout_ms=30000 if tier == "quick" else 300000)
+        try:
+            with cov:
+                paths = list(eng.explore(lambda: serde.encode(fcp, top, inst.value), inst.assume))
+            for pi, (kind, out, pc) in enumerate(paths):
+                ob_id = f"{feats['desc']}|inst{ii}|path{pi}|encode==canon"
+
+                def mk(m, canon=canon):
+                    exp = [m.eval(b, model_completion=True).as_long() for b in canon]
+                    return _replay_payload("serde_encode", schema, inst, m, expected_bytes=exp)
+
+                if kind == "exc":
+                    decide(eng, pc, z3.BoolVal(True), prop="C02", ob_id=ob_id, res=res, known=known, features=feats,
+                           env=_env(inst), make_replay=mk,
+                           what=f"encode raised {type(out).__name__}: {out} on {feats['desc']}")
+                    continue
+                if len(out) != len(canon):
+                    viol = z3.BoolVal(True)
+                else:
+                    eqs = [z3.Extract(7, 0, z3of(x)) == c for x, c in zip(out, canon)]
+                    viol = z3.Not(z3.And(*eqs)) if eqs else z3.BoolVal(False)
+                decide(eng, pc, viol, prop="C02", ob_id=ob_id, res=res, known=known, features=feats, env=_env(inst),
+                       make_replay=mk, what=f"encode(v) != canonical bytes on {feats['desc']}")
+            res["vacuity"]["twin_expected"] = res["vacuity"].get("twin_expected", 0) + 1
+            res["vacuity"]["twin_reached"] = res["vacuity"].get("twin_reached", 0) + (1 if paths else 0)
+        except EngineLimit as e:
+            res["inconclusive"].append(f"{feats['desc']} inst{ii} encode: engine limit: {e}")
+        finish_engine(res, eng)
+        # (b) decoder recovers v from the canonical bytes
+        eng = Engine(timeout_ms=30000 if tier == "quick" else 300000)
+        data = _as_symbytes(canon)
+        try:
+            with cov:
+                paths = list(eng.explore(lambda: serde.decode(fcp, top, list(data)), inst.assume))
+            for pi, (kind, out, pc) in enumerate(paths):
+                ob_id = f"{feats['desc']}|inst{ii}|path{pi}|decode(canon)==v"
+
+                def mk(m, canon=canon):
+                    cb = [m.eval(b, model_completion=True).as_long() for b in canon]
+                    return _replay_payload("serde_decode", schema, inst, m, canonical_bytes=cb)
+
+                if kind == "exc":
+                    decide(eng, pc, z3.BoolVal(True), prop="C02", ob_id=ob_id, res=res, known=known, features=feats,
+                           env=_env(inst), make_replay=mk,
+                           what=f"decode(canonical bytes) raised {type(out).__name__}: {out} on {feats['desc']}")
+                    continue
+                ob = refspec.eq_value(schema, T, out, inst.value)
+                decide(eng, pc, z3.Not(ob), prop="C02", ob_id=ob_id, res=res, known=known, features=feats,
+                       env=_env(inst), make_replay=mk, what=f"decode(canonical bytes of v) != v on {feats['desc']}")
+        except EngineLimit as e:
+            res["inconclusive"].append(f"{feats['desc']} inst{ii} decode: engine limit: {e}")
+        finish_engine(res, eng)
+    res["functions"] = sorted(cov.seen)
+    res["sample"] = {"schema": feats["desc"], "instances": ii + 1, "paths": res["paths"], "queries": res["queries"],
+                     "canonical_bytes_last_instance": len(canon),
+                     "verdicts": {"discharged": res["discharged"], "violations": len(res["violations"]),
+                                  "known": len(res["known"])}}
+    return res
+
+
+def run_c02(tier: str) -> int:
+    rep = Report("C02", tier)
+    fam = codec_family(tier, seed())
+    rep.bounds = _bounds(tier, len(fam))
+    rep.stubs = STUBS
+    rep.assumptions = STUB_NOTE + _common_assumptions() + [
+        "oracle: verif.refspec (canonical wire format written from the property text), validated on every run "
+        "against tests/standardized/fcp_tests.json and the byte vectors of tests/test_serde.py"]
+    _refspec_gate(rep)
+    for r in pmap(c02_case, [(s, tier) for s in fam]):
+        rep.merge(r)
+    _vacuity_gate(rep)
+    return rep.finish()
+
+
+# ---------------------------------------------------------------- C16
+class Announce(list):
+    """A list whose announced length (the wire prefix) is overridden."""
+    announced = None
+
+
+class AnnounceStr(SymStr):
+    announced = None
+
+
+def _dyn_sites(schema: Schema, t, v, path=()):
+    """(path, element_type, object) of every str / dynamic array / optional inside value v, in wire order.
+    Optionals are yielded with element_type None (they only act as barriers)."""
+    k = t[0]
+    if k == "str":
+        yield path, ("u", 8), v
+    elif k == "dyn":
+        yield path, t[1], v
+        for i, x in enumerate(v):
+            yield from _dyn_sites(schema, t[1], x, path + (i,))
+    elif k == "arr":
+        for i, x in enumerate(v):
+            yield from _dyn_sites(schema, t[1], x, path + (i,))
+    elif k == "opt":
+        yield path, None, v
+        if v is not None:
+            yield from _dyn_sites(schema, t[1], v, path)
+    elif k == "struct":
+        for fn, _, ft in sorted(schema.struct(t[1]), key=lambda f: f[1]):
+            yield from _dyn_sites(schema, ft, v[fn], path + (fn,))
+
+
+def _replace_at(schema, t, v, path, new):
+    if not path:
+        return new
+    k = t[0]
+    if k == "struct":
+        fs = {fn: ft for fn, _, ft in schema.struct(t[1])}
+        out = dict(v)
+        out[path[0]] = _replace_at(schema, fs[path[0]], v[path[0]], path[1:], new)
+        return out
+    if k in ("arr", "dyn"):
+        out = list(v)
+        out[path[0]] = _replace_at(schema, t[1], v[path[0]], path[1:], new)
+        if isinstance(v, Announce):
+            raise AssertionError
+        return out
+    if k == "opt":
+        return _replace_at(schema, t[1], v, path, new)
+    raise ValueError((t, path))
+
+
+def c16_case(args):
+    schema, tier = args
+    serde = _setup()
+    res = new_result()
+    fcp = parse(schema.text())
+    feats = features_of(schema)
+    known = Known("C16")
+    top = schema.top
+    T = ("struct", top)
+    cov = Coverage()
+    tmo = 30000 if tier == "quick" else 300000
+    nobl = {"prefix": 0, "announce": 0, "arbitrary": 0}
+    t_case = time.time()
+
+    def must_raise(eng, data, assume, ob_id, what, mk, work=None):
+        """decode(data) must raise on every feasible path."""
+        ForkingRange.work = [work] if work is not None else None
+        try:
+            with cov:
+                it = eng.explore(lambda: _decode_reset(serde, fcp, top, data, work), assume)
+                for pi, (kind, out, pc) in enumerate(it):
+                    oid = f"{ob_id}|path{pi}"
+                    if kind == "exc" and isinstance(out, WorkBound):
+                        decide(eng, pc, z3.BoolVal(True), prop="C16", ob_id=oid, res=res, known=known,
+                               features=feats, env={}, make_replay=lambda m: mk(m, True),
+                               what=what + " :: work not bounded by the input length")
+                    elif kind == "exc":
+                        res["obligations"].append(oid)
+                        res["discharged"] += 1
+                    else:
+                        decide(eng, pc, z3.BoolVal(True), prop="C16", ob_id=oid, res=res, known=known,
+                               features=feats, env={}, make_replay=lambda m: mk(m, False), what=what)
+        except EngineLimit as e:
+            res["inconclusive"].append(f"{ob_id}: engine limit: {e}")
+        finally:
+            ForkingRange.work = None
+        finish_engine(res, eng)
+
+    for ii, inst in enumerate(instances(schema, tier)):
+        canon = refspec.canon_bytes(schema, T, inst.value)
+        data = _as_symbytes(canon)
+        # (a) every strict prefix of a valid encoding must be rejected
+        for k in range(len(data)):
+            def mk(m, wb, k=k):
+                cb = [m.eval(b, model_completion=True).as_long() for b in canon][:k]
+                return _replay_payload("serde_truncated", schema, inst, m, data=cb, work_bound=wb,
+                                       why=f"strict prefix ({k} of {len(canon)} bytes) of a valid encoding")
+            must_raise(Engine(timeout_ms=tmo), data[:k], inst.assume, f"{feats['desc']}|inst{ii}|prefix{k}",
+                       f"decode accepted a strict prefix ({k}/{len(canon)} bytes) on {feats['desc']}", mk,
+                       work=64 * (len(data) + 8))
+            nobl["prefix"] += 1
+        # (b) a length prefix announcing more than the buffer holds (any value up to 2^32-1) must be rejected
+        total_bits, _ = refspec.pack(refspec.segments(schema, T, inst.value))
+        # only the LAST variable-size node in wire order: a corrupted earlier prefix makes later prefixes/flags be
+        # re-read from other bytes, so "what the prefixes announce" is no longer determined by this one count
+        sites = list(_dyn_sites(schema, T, inst.value))
+        for si, (path, et, obj) in enumerate(sites[-1:]):
+            if et is None or not is_fixed(schema, et):
+                continue
+            from ..shapes import fixed_bits
+            ebits = fixed_bits(schema, et)
+            if ebits == 0:
+                continue
+            L = len(obj)
+            ann, c_ann = SymInt.fresh(f"announced{si}", 0, 2 ** 32 - 1)
+            new = AnnounceStr(obj) if isinstance(obj, SymStr) else Announce(obj)
+            new.announced = ann
+            v2 = _replace_at(schema, T, inst.value, path, new)
+            canon2 = refspec.canon_bytes(schema, T, v2)
+            nbytes = len(canon2)
+            other = total_bits - ebits * L
+            # the announced value needs more bytes than exist
+            need = z3.BitVecVal(other, W) + z3.BitVecVal(ebits, W) * ann.e > 8 * nbytes
+            assume = inst.assume + [c_ann, ann.e > L, need]
+
+            def mk(m, wb, canon2=canon2):
+                cb = [m.eval(b, model_completion=True).as_long() for b in canon2]
+                return _replay_payload("serde_truncated", schema, inst, m, data=cb, work_bound=wb,
+                                       why="a length prefix announces more elements than the buffer holds")
+            must_raise(Engine(timeout_ms=tmo), _as_symbytes(canon2), assume,
+                       f"{feats['desc']}|inst{ii}|announce{si}",
+                       f"decode accepted a buffer shorter than its length prefix announces on {feats['desc']}", mk,
+                       work=64 * (nbytes + 8))
+            nobl["announce"] += 1
+    # (c) arbitrary buffers: whatever decode returns must fit in the bytes that were there, with bounded work
+    for n in ((0, 1, 2, 3, 5, 6) if tier == "quick" else (0, 1, 2, 3, 4, 5, 6, 7, 8, 9, 12)):
+        raw = [z3.BitVec(f"b{i}", 8) for i in range(n)]
+        data = _as_symbytes(raw)
+        eng = Engine(timeout_ms=tmo, max_paths=3000)
+        ob_base = f"{feats['desc']}|arbitrary{n}"
+        ForkingRange.work = [64 * (n + 8)]
+        try:
+            with cov:
+                for pi, (kind, out, pc) in enumerate(
+                        eng.explore(lambda: _decode_reset(serde, fcp, top, data, 64 * (n + 8)), [])):
+                    oid = f"{ob_base}|path{pi}"
+
+                    def mk(m, wb, raw=raw):
+                        cb = [m.eval(b, model_completion=True).as_long() for b in raw]
+                        return {"kind": "serde_truncated", "schema_text": schema.text(), "top": top, "data": cb,
+                                "schema": _schema_json(schema), "work_bound": wb,
+                                "why": "returned value needs more bytes than the input has"}
+                    if kind == "exc" and isinstance(out, WorkBound):
+                        decide(eng, pc, z3.BoolVal(True), prop="C16", ob_id=oid, res=res, known=known,
+                               features=feats, env={}, make_replay=lambda m: mk(m, True),
+                               what=f"decode work not bounded by input length ({n} bytes) on {feats['desc']}")
+                    elif kind == "exc":
+                        res["obligations"].append(oid)
+                        res["discharged"] += 1
+                    else:
+                        try:
+                            bits, _ = refspec.pack(refspec.segments(schema, T, out))
+                        except Exception as e:
+                            res["inconclusive"].append(f"{oid}: returned value not of the schema's type: {e}")
+                            continue
+                        if (bits + 7) // 8 > n:
+                            decide(eng, pc, z3.BoolVal(True), prop="C16", ob_id=oid, res=res, known=known,
+                                   features=feats, env={}, make_replay=lambda m: mk(m, False),
+                                   what=f"decode fabricated a value of {bits} bits from {n} bytes on {feats['desc']}")
+                        else:
+                            res["obligations"].append(oid)
+                            res["discharged"] += 1
+                    nobl["arbitrary"] += 1
+        except EngineLimit as e:
+            res["inconclusive"].append(f"{ob_base}: engine limit: {e}")
+        finally:
+            ForkingRange.work = None
+        finish_engine(res, eng)
+    res["functions"] = sorted(cov.seen)
+    res["sample"] = {"schema": feats["desc"], "obligation_groups": nobl, "paths": res["paths"], "wall_s": round(time.time() - t_case, 2),
+                     "queries": res["queries"],
+                     "verdicts": {"discharged": res["discharged"], "violations": len(res["violations"])}}
+    return res
+
+
+def _decode_reset(serde, fcp, top, data, work):
+    if work is not None:
+        ForkingRange.work = [work]
+    return serde.decode(fcp, top, list(data))
+
+
+def c16_family(tier, sd):
+    fam = codec_family(tier, sd)
+    if tier == "quick":
+        # the quick tier keeps every shape with a variable-size part and a sample of the fixed-size ones
+        keep = []
+        for i, s in enumerate(fam):
+            if has_kind(s, ("struct", s.top), ("str", "dyn", "opt")) or i % 7 == 0:
+                keep.append(s)
+        fam = keep
+    return fam
+
+
+def run_c16(tier: str) -> int:
+    rep = Report("C16", tier)
+    fam = c16_family(tier, seed())
+    rep.bounds = _bounds(tier, len(fam))
+    rep.bounds.update({
+        "truncation": "every byte boundary k < len(encoding) of every instance (values symbolic)",
+        "length_prefix": "every str / dynamic array of fixed-size elements: announced count symbolic in (L, 2^32) "
+                         "subject to 'announced value needs more bytes than the buffer has'",
+        "arbitrary_buffers": "n symbolic bytes, n in {0,1,2,3,5,6} (quick) / {0..9,12} (thorough); "
+                             "work budget 64*(n+8) loop iterations",
+    })
+    rep.stubs = STUBS
+    rep.assumptions = STUB_NOTE + _common_assumptions() + [
+        "any Exception raised by decode counts as 'raises a decoding error'",
+        "non-canonical but complete inputs (presence flag not in {0,1}, non-zero padding) are not required to be "
+        "rejected: the property does not ask for it"]
+    _refspec_gate(rep)
+    for r in pmap(c16_case, [(s, tier) for s in fam]):
+        rep.merge(r)
+    return rep.finish()
